@@ -60,6 +60,7 @@ def main():
             t0 = time.time()
             res = [run_one(r, timeout) for r in it["runs"]]
             fh.write(json.dumps({"rid": it["rid"], "res": res, "wall": round(time.time() - t0, 2)}, separators=(",", ":")) + "\n")
+            fh.flush()
 
 
 if __name__ == "__main__":
